@@ -92,6 +92,7 @@ package cache
 // One contract per generic method; every instantiation is verified against it (K, V stand for
 // the instance's type arguments).
 //@ func (*ItemCache).Put
+//@   allocates
 //@   property C04 C08
 //@   requires unheld(ic.itemsMu) && ic.items != nil
 //@   modifies ic.items
@@ -102,6 +103,7 @@ package cache
 // read: a successful read-through installs a clean, live entry holding exactly what ReadFrom
 // returned; a failed one leaves the map alone.
 //@ func (*ItemCache).read
+//@   allocates
 //@   property C04 C08
 //@   requires ic.items != nil
 //@   modifies ic.items
@@ -113,6 +115,7 @@ package cache
 
 // Get: a cached entry wins over the bucket (a tombstone means not found); otherwise read-through.
 //@ func (*ItemCache).Get
+//@   allocates
 //@   property C04 C08
 //@   requires unheld(ic.itemsMu) && ic.items != nil
 //@   requires forallv(k K, contains(ic.items, k) ==> ic.items[k] != nil)
@@ -122,10 +125,13 @@ package cache
 //@   ensures old(contains(ic.items, id)) && !old(ic.items[id].IsDeleted) ==> err == nil && value == old(ic.items[id].value)
 //@   ensures old(contains(ic.items, id)) ==> forallv(k K, contains(ic.items, k) == old(contains(ic.items, k)) && ic.items[k] == old(ic.items[k]))
 //@   ensures !old(contains(ic.items, id)) && err == nil ==> contains(ic.items, id) && ic.items[id].value == value && !ic.items[id].IsDeleted
+//@   ensures forallv(k K, k != id ==> contains(ic.items, k) == old(contains(ic.items, k)) && ic.items[k] == old(ic.items[k]))
+//@   ensures !old(contains(ic.items, id)) ==> ncalls(read) == 1 && value == callres(read, 1, 0) && err == callres(read, 1, 1)
 //@   ensures forallv(k K, contains(ic.items, k) ==> ic.items[k] != nil)
 
 // Delete: every requested id that is cached or found in the bucket ends up as a tombstone.
 //@ func (*ItemCache).Delete
+//@   allocates
 //@   property C04 C08
 //@   requires unheld(ic.itemsMu) && ic.items != nil
 //@   requires forallv(k K, contains(ic.items, k) ==> ic.items[k] != nil)
@@ -167,6 +173,7 @@ package cache
 // ForEach, scan phase: a bucket key the item type recognises (IdFromKey) whose id is not cached
 // is read through; what is cached already is never replaced (the cache wins over the bucket).
 //@ func (*ItemCache).ForEach$1
+//@   allocates
 //@   property C04 C08
 //@   invariant ic.items != nil
 //@   invariant forallv(k K, contains(ic.items, k) ==> ic.items[k] != nil)
